@@ -37,6 +37,8 @@ for line in changed:
         basev = sh("git", "-C", W, "show", f"{base}:{path}").stdout
         if b != basev and a != b:
             print("CONFLICT (both changed):", path); continue
+    if st.startswith("A") and os.path.exists(dst) and open(src).read() != open(dst).read():
+        print("CONFLICT (name clash, new file exists in /verif):", path); continue
     os.makedirs(os.path.dirname(dst), exist_ok=True)
     shutil.copyfile(src, dst)
     print("copied", path)
